@@ -31,7 +31,7 @@ LEVEL_NOTE = ('Trusted: NumPy long-double arithmetic, Hypothesis, the '
               'non-finite operands are outside the generator (see '
               'assumptions in the evidence).')
 DESIGN_REF = 'DESIGN.md section 5, C01'
-BUDGET = {'quick': 5000, 'thorough': 200000}
+BUDGET = {'quick': 15000, 'thorough': 200000}
 K_TOL = 8
 TOLERANCES = {
     'values': '|got-ref| <= 8*eps(dtype)*magnitude entry-wise, magnitude = '
